@@ -43,6 +43,7 @@ func init() {
 			"c20.association-same-types": seq.ReproAssociationSameTypes,
 			"c20.array-source":           seq.ReproArraySource,
 			"c20.stack-source":           seq.ReproStackSource,
+			"c20.nil-literal":            seq.ReproNilLiteral,
 		},
 	}
 	c20seq(p, seq.ETInt64, 1500, 30000)
@@ -52,6 +53,7 @@ func init() {
 	c20seq(p, seq.ETRune, 800, 15000)
 	c20seq(p, seq.ETBool, 500, 8000)
 	c20seq(p, seq.ETAny, 1200, 20000)
+	c20seq(p, seq.ETAnyNil, 800, 12000)
 	c20assoc(p, seq.ETString, seq.ETInt64, 1500, 25000)
 	c20assoc(p, seq.ETString, seq.ETString, 1500, 25000)
 	c20assoc(p, seq.ETInt64, seq.ETInt64, 1000, 15000)
